@@ -4,7 +4,7 @@
 use crate::ast::*;
 use crate::choice::Choices;
 use crate::common::*;
-use crate::props::c01::{gen_pcase, op_names, pcase_json, script_profile};
+use crate::props::c01::{gen_pcase, maybe_lengthen, op_names, pcase_json, script_profile};
 use crate::run::*;
 use serde_json::json;
 
@@ -42,7 +42,8 @@ fn two_forms(n: &Node) -> bool {
 }
 
 fn run_case(c: &mut dyn Choices, ctx: &Ctx) -> Outcome {
-  let base = gen_pcase(c, 4, true);
+  let mut base = gen_pcase(c, 4, true);
+  maybe_lengthen(c, &mut base);
   let l = PCase { node: base.node.with_flags(false), threads: false, ..base.clone() };
   let t = PCase { node: base.node.with_flags(true), threads: true, ..base.clone() };
   let rl = run_pcase(&l, true);
